@@ -28,7 +28,10 @@ FS_CONSTS = [
 KLASS_IDS = {"RootOp": 1, "RenameSelf": 2, "RenameFileAny": 3, "RenameDir": 4, "StaleHandle": 5,
              "Recreate": 6}
 
-HEADER = ("From TV.Lib Require Import Base.\nFrom TV.Fs Require Import FsImpl FsSpec FsSafe.\n"
+KNOWN_IDS = {"RootOp": 1, "RenameSelf": 2, "RenameDir": 4, "StaleHandle": 5, "Recreate": 6, "RenameFile": 7,
+             "RenameCrossDir": 8, "KindSwap": 9}
+
+HEADER = ("From TV.Lib Require Import Base.\nFrom TV.Fs Require Import FsImpl FsSpec FsSafe FsDurable FsKnown.\n"
           "Open Scope N_scope.\n")
 
 
@@ -134,12 +137,13 @@ class Spec(PropSpec):
         sterm = term.replace("hrun_enc %d%%nat %d%%nat" % (n, case["cfg"].get("block_size") or 0),
                              "hsrun_enc %d%%nat" % n, 1)
         cterm = "hclasses_enc" + term.split("hrun_enc", 1)[1].replace(" %d%%nat [" % (case["cfg"].get("block_size") or 0), " [", 1)
-        return "(%s, %s, %s)" % (term, sterm, cterm), probes, problems
+        kterm = term.replace("hrun_enc", "hknown_enc", 1)
+        return "(%s, %s, %s, %s)" % (term, sterm, cterm, kterm), probes, problems
 
     def compare(self, case, obs, model, probes):
         if isinstance(model, tuple) and model and model[0] == "error":
             return "model evaluation failed: %s" % str(model[1])[-400:]
-        impl_m, spec_m, klasses = model
+        impl_m, spec_m, klasses, knowns = model
         d = F.compare(case, obs, impl_m, probes)
         if d:
             return d
@@ -147,6 +151,10 @@ class Spec(PropSpec):
         py = sorted(KLASS_IDS[k] for k in F.history_features(case, obs) if k in KLASS_IDS)
         if not any(st[0] == "crash" for st in case["steps"]) and py != sorted(set(klasses)):
             return "known-class predicates disagree: python %s, FsSafe.v %s" % (py, sorted(set(klasses)))
+        # ... and so must the known classes of FsKnown.v be those of fam_fs.Ghost
+        pk = sorted(KNOWN_IDS[k] for k in F.history_features(case, obs) if k in KNOWN_IDS)
+        if pk != sorted(set(knowns)):
+            return "known classes disagree: python %s, FsKnown.v %s" % (pk, sorted(set(knowns)))
         # the Coq reference tree must agree with the independent python tree
         if not any(st[0] == "crash" for st in case["steps"]):
             exp = spec_expected(case)
